@@ -1,10 +1,13 @@
 /-
-C20 - no state leaks between queries; returned results stay untouched (partial: the model has no
+C20 - no state leaks between queries; returned results stay untouched (the semantic model has no
 engine state by construction; what forces that shape are the regenerated facts below; buffer
-reuse is observed by the snapshot harness, not modelled).
+reuse is modelled in `Pool.lean` - the vector pool and `Exec`'s copy-then-recycle - and tied to
+the source by the regenerated facts about how `Exec` writes the result and what goes back to the
+pool; the snapshot harness observes the real engine).
 -/
 import PromqlVerif.Eng
 import PromqlVerif.Gen.Facts
+import PromqlVerif.Pool
 namespace PromqlVerif.C20
 open PromqlVerif Val
 
@@ -26,5 +29,41 @@ theorem kth_outcome_is_fresh (h : List (Ctx V × Window × Expr V)) (k : Nat) (q
 /-- what justifies that shape for the code: no package-level variable is assigned by any
 function of the engine (regenerated on every run) -/
 theorem no_global_state_written : Gen.packageVarWrites = [] := by decide
+
+/-! ### returned results stay untouched -/
+
+open PoolM in
+/-- **no sequence of pool operations changes what an assembled result reads**: operators taking
+buffers from the pool, overwriting buffers they hold, `Exec` copying a buffer's values into arrays
+of its own and returning the buffer - in any order and number, starting from any state in which the
+result points into `Exec`'s own arrays only: the values seen before are still there afterwards,
+with later copies behind them -/
+theorem result_untouched_by_buffer_reuse {α : Type} (s : St α) (hi : Inv s) (ops : List (Op α))
+    (hops : ∀ op ∈ ops, op.isAlias = false) :
+    (values (run s ops)).take (values s).length = values s := (result_is_stable s hi ops hops).2
+
+open PoolM in
+/-- from the empty state on: every state the machine reaches keeps the result apart from the pool -/
+theorem every_reachable_state_keeps_the_result_apart {α : Type} (ops : List (Op α))
+    (hops : ∀ op ∈ ops, op.isAlias = false) : Inv (run (init : St α) ops) :=
+  (result_is_stable init inv_init ops hops).1
+
+/-- the counter-model: a result that keeps a reference to a pooled buffer changes when the buffer
+is handed out and written again -/
+theorem aliased_result_is_not_stable :
+    let s1 := PoolM.run (PoolM.init : PoolM.St Nat) [.get, .write 0 [1, 2], .aliasOut 0]
+    let s2 := PoolM.run s1 [.put 0, .get, .write 0 [7, 8]]
+    PoolM.values s1 = [[1, 2]] ∧ PoolM.values s2 = [[7, 8]] := PoolM.aliased_result_changes
+
+/-- **`Exec` is the copying machine, not the aliasing one** (regenerated from the working tree): every
+write to a `Points` slice of the result is `make(..)` or an append of a `promql.Point{..}` literal
+built from the sample's scalars - never of a slice; what goes back to the pool are the step
+vectors and the batch the operator tree returned, nothing of the result; `Close` and `Cancel`
+cancel the context and return nothing to any pool -/
+theorem exec_copies_and_recycles_only_buffers :
+    Gen.execPointsWrites = ["append-literal", "make", "append-literal"] ∧
+    Gen.execPoolPuts = ["PutStepVector(vector)", "PutVectors(r)", "PutStepVector(vector)", "PutVectors(r)"] ∧
+    Gen.closeCancelCalls = ["Cancel:q.cancel", "Cancel:q.cancelMu.Lock", "Cancel:q.cancelMu.Unlock", "Close:q.Cancel"] := by
+  decide
 
 end PromqlVerif.C20
